@@ -79,8 +79,9 @@ CLAIMS = {
          "and refunds.", "section 6 C16", "Known finding: mixed bank-era batches (closed era). "),
  "C17": ("Coq theorems: a rejected batch gets exactly its negative code and moves no balance; effects only with a complete execution; paging by LIMIT/OFFSET over a fixed order "
          "returns every action exactly once. Tie: history, lookup, status, holding and relation rows compared with the node; executable oracle 'replaying the recorded "
-         "history reproduces every balance' on the node's dumps.", "section 6 C17",
-         "The API handlers themselves are not modelled (paging is proved for the list-level query shape). "),
+         "history reproduces every balance' on the node's dumps; the real API server (get-transactions by hash/address/height/txid with every filter and explicit offsets, "
+         "get-transaction, get-transaction-status, get-pegnet-balances) walked page by page and compared with plain SELECTs over a read-only connection.", "section 6 C17",
+         "The API handlers are exercised, not modelled (paging is proved for the list-level query shape; the SQL the builder emits is tied by the walk). "),
  "C18": ("Coq theorem: API requests, as transitions that read the committed database and may rebuild the average cache, interleaved anywhere with block application, never change "
          "the database computed; table obligations from the source: no statement reachable from a handler writes, all run on the pool, the shared fields are the reviewed ones "
          "and every conflicting pair of accesses holds a common mutex or uses sync/atomic. Tie: the real API server hammered from 8 goroutines during sync; thorough: under the race detector.",
